@@ -9,7 +9,7 @@
    cannot run out: the model's loader terminates on its own for every byte sequence.  NOT proved: a step bound in terms of
    the FILE size (the known finding: work follows the declared sizes); the check measures wall time and outcome on every
    damaged file (partial). *)
-From EZ Require Import Base Bytes Types Api Dec Float32 Run Proofs_Robust Proofs_Fuel.
+From EZ Require Import Base Bytes Types Api Dec Float32 Run Proofs_Robust Proofs_Fuel Proofs_Zeros.
 Local Open Scope N_scope.
 
 Theorem C16_stream_never_short : forall st n, length (fst (read st n)) = n.
@@ -78,3 +78,10 @@ Example C16_nonvacuous :
   load_x [] = Throw IosFailure /\ load_x [2; 81] = Throw IosFailure /\ load_x (repeat 0 700) = Throw IosFailure.
 Proof. repeat split; vm_compute; reflexivity. Qed.
 Print Assumptions C16_nonvacuous.
+
+(* a file that holds nothing but zero bytes — of ANY length, the empty file included — is refused with ios_base::failure: the
+   scan for the first non-zero byte ends with the file (a hoisted end-of-file test made it endless: seed C16-r12b) *)
+Theorem C16_all_zero_files_are_refused : forall f_key f_tosize f_div n,
+  load f_key f_tosize f_div (repeat 0%N n) = Throw IosFailure.
+Proof. exact load_all_zero. Qed.
+Print Assumptions C16_all_zero_files_are_refused.
